@@ -81,8 +81,8 @@ def garbage(rng):
 
 class C15(Prop):
     id = "C15"
-    translators = []
-    proof_targets = ["Master/MTaskProofs.vo"]
+    translators = ["gen_master_tables"]
+    proof_targets = ["Master/MTaskProofs.vo", "Master/TablesAgree.vo"]
     property_file = "Properties/C15.v"
     theorems = []
     modelled = ("modelled by hand: master/task.rs (run_single_non_read_task, validate_non_read_response, "
